@@ -8,6 +8,7 @@ the hypothesis `decompress (compress b) = some b`.
 -/
 import OG.C07.LemmasInt
 import OG.C07.LemmasTime
+import OG.C07.LemmasBool
 
 namespace OG.C07
 open OG.Gen.C07
@@ -248,5 +249,27 @@ theorem time_block_roundtrip (snappy : Bytes → Bytes) (unsnappy : Bytes → Op
 example : encodeTime (fun b => b) 0 [1000#64, 2000#64, 3500#64, 4000#64]
     = some [0x20, 0, 0, 0, 0, 0, 0, 0, 100, 0, 0, 0, 2, 0, 0, 0, 4,
             0, 0, 0, 0, 0, 0, 3, 232, 0xd0, 0, 5, 0, 0, 0xf0, 0, 10] := by decide
+
+/-! ## booleans -/
+
+/-- **boolean block**: bit packing (most significant bit first, zero padded) round-trips for
+every list of booleans, whatever its length modulo eight. -/
+theorem bool_roundtrip (vs : List Bool) (hlen : vs.length < 2 ^ 32) :
+    decodeBool (encodeBool vs) = some vs := by
+  unfold encodeBool
+  simp only [decodeBool, modeByte_ty _ (show boolCompressedBitpack < 16 by decide)]
+  unfold decodeBoolBody
+  have p4 : (256 : Nat) ^ 4 = 2 ^ 32 := by decide
+  rw [readBE_be_lt _ (by rw [p4]; exact hlen)]
+  have hm : ¬ (boolCompressedBitpack ≠ boolCompressedBitpack) := by simp
+  have hl := packBits_length vs.length vs (Nat.le_refl _)
+  have ht : (packBits vs).take ((vs.length + 7) / 8) = packBits vs :=
+    List.take_of_length_le (by omega)
+  have hl2 : ¬ ((packBits vs).length < (vs.length + 7) / 8) := by omega
+  simp only [hm, if_false, ht, hl2]
+  rw [unpack_pack_take vs.length vs (Nat.le_refl _)]
+
+example : encodeBool [true, false, true, true, false, false, false, false, true]
+    = [0x10, 0, 0, 0, 9, 0xb0, 0x80] := by decide
 
 end OG.C07
